@@ -86,6 +86,7 @@ def gen_function(c: Contract, prop: str, bounded=None) -> FunctionReport:
         rep.sha, rep.file = sha, fname
         ex = FullExecutor(c, prop)
         ex.local_types = {k: v for k, v in c.types.items() if isinstance(v, Ty)}
+        ex.owner_stack = [owner]
         body = ex.normalise(node.body)
         ex.loop_ord, nloops = number_loops(body)
         for k in c.invs:
